@@ -385,3 +385,9 @@ mod tests {
         }
     }
 }
+// same word size, subject at least two words longer than the operand (the tail loop that
+// propagates the carry/borrow through the remaining words runs more than once)
+h_addsub_all!(c01_q_addsub_f8x3_f8x1, 5, f8x3(anylen(24)), f8x1(anylen(8)));
+h_addsub_all!(c01_q_addsub_f8x4_f8x1, 6, f8x4(anylen(32)), f8x1(anylen(8)));
+h_addsub_all!(c01_q_addsub_f64x3_f64x1, 5, f64x3(anylen(192)), f64x1(anylen(64)));
+h_addsub_all!(c01_t_addsub_f8x4_f8x2, 6, f8x4(anylen(32)), f8x2(anylen(16)));
